@@ -122,6 +122,7 @@ def expected(fmt, system, d, tokens, first_leaf_cats=None):
                 attrs = dict(tk)
                 attrs.pop('surf', None)
                 return ('L', D.jigg_cat(x[1]), surf, tuple(sorted(attrs.items())) + (('token_cat', canon(tcat)),))
+
             if x[0] == 'U':
                 return ('T', D.jigg_cat(x[1]), x[4] if use_symbol else x[3], None, (rec(x[2]),))
             return ('T', D.jigg_cat(x[1]), x[5] if use_symbol else x[4], None, (rec(x[2]), rec(x[3])))
@@ -284,8 +285,10 @@ def check_case(case, info=None):
                             bad(f'{fmt}/{system}/heads', f'conll head of word {k + 1} is {row["head"]}, the head flags imply '
                                 f'{want_heads[k]} (all: {want_heads})')
                             break
-                        if (row['word'], row['lemma'], row['pos'], row['cat']) != \
-                                (D.auto_word(t_['word']), t_.get('lemma', '_'), t_.get('pos', '_'), canon(leaves[k])):
+                        # (FORM: the word, as it is or in the escaped spelling of the AUTO fragment)
+                        if row['word'] not in (D.auto_word(t_['word']), t_['word']) or \
+                                (row['lemma'], row['pos'], row['cat']) != \
+                                (t_.get('lemma', '_'), t_.get('pos', '_'), canon(leaves[k])):
                             bad(f'{fmt}/{system}/differs/columns', f'conll row {k + 1}: {row}')
                             break
                     continue
@@ -293,6 +296,8 @@ def check_case(case, info=None):
                     want_words = ' '.join(t_['word'] for t_ in tk)
                     if rec[3] != ' '.join(t_['word'] for t_ in toks[si - 1][0]):
                         bad(f'{fmt}/{system}/differs/sentence-words', f'html sentence line {rec[3]!r} vs words {want_words!r}')
+                if fmt == 'jigg_xml' and 'token_cat' not in repr(dec):
+                    ref = _without_token_cat(ref)       # (the copy of the leaf category on <token> is optional)
                 if dec != ref:
                     bad(f'{fmt}/{system}/differs/{_diff_class(dec, ref)}', f'{fmt}: {_first_diff(dec, ref)}')
     finally:
@@ -300,6 +305,12 @@ def check_case(case, info=None):
     if info is not None:
         info['skipped'] = skipped
     return fails
+
+
+def _without_token_cat(t):
+    if t[0] == 'L':
+        return t[:3] + (tuple(kv for kv in t[3] if kv[0] != 'token_cat'),) + t[4:]
+    return t[:4] + (tuple(_without_token_cat(c) for c in t[4]),) + t[5:]
 
 
 def replay(case):
